@@ -508,8 +508,8 @@ theorem keepCD_genesisValidator {L L' : Ledger} {g : GenesisValidator} (h : gene
 
 /-- an accepted genesis has no reward percents recorded -/
 theorem genesis_percentsOK {cfg : Config} {params : Params} {accounts : List (Addr × Nat)} {pools : List (Nat × Nat)}
-    {vals : List GenesisValidator} {retired : List Nat} {L : Ledger}
-    (h : genesis cfg params accounts pools vals retired = .ok L) : PercentsOK L := by
+    {vals : List GenesisValidator} {retired : List Nat} {books : List GenesisBook} {L : Ledger}
+    (h : genesis cfg params accounts pools vals retired books = .ok L) : PercentsOK L := by
   unfold genesis at h
   split at h
   · exact absurd h (by intro h; cases h)
@@ -522,6 +522,9 @@ theorem genesis_percentsOK {cfg : Config} {params : Params} {accounts : List (Ad
         split at h
         · exact absurd h (by intro h; cases h)
         · next L3 h3 =>
+          split at h
+          · exact absurd h (by intro h; cases h)
+          next L4 h4 =>
           obtain rfl := Except.ok.inj h
           have k1 := keepCD_foldlM genesisAccount (fun L e L' h => by
             unfold genesisAccount at h; split at h
@@ -532,9 +535,15 @@ theorem genesis_percentsOK {cfg : Config} {params : Params} {accounts : List (Ad
             · exact absurd h (by intro h; cases h)
             · obtain rfl := Except.ok.inj h; rfl) pools L1 L2 h2
           have k3 := keepCD_foldlM genesisValidator (fun L g L' h => keepCD_genesisValidator h) vals L2 L3 h3
-          have e : L3.committeesData = [] := ((k1.trans k2).trans k3)
+          have k4 := keepCD_foldlM genesisBook (fun L b L' h => by
+            unfold genesisBook at h
+            exact keepCD_foldlM (genesisOrder b.1) (fun L x L' h => by
+              unfold genesisOrder at h; split at h
+              · exact absurd h (by intro h; cases h)
+              · obtain rfl := Except.ok.inj h; rfl) b.2 L L' h) books L3 L4 h4
+          have e : L4.committeesData = [] := (((k1.trans k2).trans k3).trans k4)
           intro d hd
-          have : d ∈ L3.committeesData := hd
+          have : d ∈ L4.committeesData := hd
           rw [e] at this; cases this
 
 end Canopy.Ledger
